@@ -384,4 +384,95 @@ theorem runWorkflows_spec (fixed : Bool) (name : String) (runs : List (List Stri
 
 end ChainRun
 
+/-! ### process death between the start of a task and the next commit -/
+section Crash
+variable (name k : String)
+
+/-- in the code's order nothing is pending when the task function is entered -/
+theorem enterTask_early_durable (fixed : Bool) (d d' : DB) (f : HRef HT) (h : enterTask fixed true d f = .ok d') :
+    d'.ses = d'.dur := by
+  unfold enterTask DB.rollback at h
+  simp only [if_true] at h
+  cases hr : d.ses.rollback fixed f with
+  | error e => simp [hr] at h
+  | ok s => simp [hr] at h; subst h; rfl
+
+theorem crashTask_spec (fixed : Bool) (w : WSt) (p : List String) (t : String) (h : J name k w.st w.ext)
+    (hp : p <+: w.ext) (hv : p = [] ∨ w.st.isValid (node name k p) = true) :
+    ∃ w' started, crashTask fixed true k w p.length t (node name k p) = .ok (w', started) ∧
+      J name k w'.st w'.ext ∧
+      (started = false → p ++ [t] <+: w'.ext ∧ w'.st.isValid (node name k (p ++ [t])) = true) := by
+  have h1 := J_advance_fork name k fixed h hp hv
+  have hfv : (w.st.advance fixed [⟨(node name k p).ref, true, []⟩] (fk name k p).ref).isValid (fk name k p) = true :=
+    (isValid_advance_single fixed _ _ _ _).2 (Or.inr (Or.inl rfl))
+  have hd1 : DB.advance fixed ⟨w.st, w.st⟩ [⟨(node name k p).ref, true, []⟩] (fk name k p).ref =
+      ⟨w.st.advance fixed [⟨(node name k p).ref, true, []⟩] (fk name k p).ref,
+       w.st.advance fixed [⟨(node name k p).ref, true, []⟩] (fk name k p).ref⟩ := rfl
+  unfold crashTask
+  simp only
+  have hfk : HT.fork (node name k p) k = fk name k p := rfl
+  rw [hfk, ← node_snoc name k p t, hd1]
+  split
+  · next hhit =>
+    refine ⟨_, false, rfl, h1, fun _ => ⟨?_, hhit.2⟩⟩
+    obtain ⟨q, hq, hx⟩ := h1.validShape _ hhit.2
+    rcases hx with hx | hx
+    · rw [node_inj name k hx]; exact hq
+    · exact absurd hx (node_ne_fk name k _ _)
+  · obtain ⟨st2, hrb, hj2, _⟩ := J_rollback name k fixed h1 hp hfv
+    simp only [enterTask, DB.rollback, if_true, hrb, DB.commit, DB.crash]
+    have hext : w.ext.take p.length ++ [t] = p ++ [t] := by
+      rw [← List.prefix_iff_eq_take.1 hp]
+    refine ⟨_, true, rfl, ?_, fun h => by simp at h⟩
+    simp only [hext]
+    exact hj2.weaken name k (List.prefix_append p [t])
+
+theorem runChainCrash_spec (fixed : Bool) (ts : List String) (w : WSt) (p : List String) (cd : Nat)
+    (h : J name k w.st w.ext) (hp : p <+: w.ext) (hv : p = [] ∨ w.st.isValid (node name k p) = true) :
+    ∃ w', runChainCrash fixed true k w p.length ts (node name k p) cd = .ok w' ∧ J name k w'.st w'.ext := by
+  induction ts generalizing w p cd with
+  | nil => exact ⟨w, by simp [runChainCrash], h⟩
+  | cons t ts ih =>
+    cases cd with
+    | zero =>
+      obtain ⟨w1, started, hc, hj1, hcont⟩ := crashTask_spec name k fixed w p t h hp hv
+      cases started with
+      | true => exact ⟨w1, by simp only [runChainCrash, hc], hj1⟩
+      | false =>
+        obtain ⟨hp1, hv1⟩ := hcont rfl
+        obtain ⟨w2, ran, hrc, hj2, _, _⟩ := runChain_spec name k fixed ts w1 (p ++ [t]) [] hj1 hp1 (Or.inr hv1)
+        refine ⟨w2, ?_, hj2⟩
+        have hl : (p ++ [t]).length = p.length + 1 := by simp
+        rw [hl, node_snoc] at hrc
+        simp only [runChainCrash, hc]
+        have hfk : HT.fork (node name k p) k = fk name k p := rfl
+        rw [hfk, hrc]
+    | succ cd =>
+      obtain ⟨w1, didRun, hrt, hj1, hp1, hv1⟩ := runTask_spec name k fixed w p t h hp hv
+      obtain ⟨w2, hrc, hj2⟩ := ih w1 (p ++ [t]) cd hj1 hp1 (Or.inr hv1)
+      refine ⟨w2, ?_, hj2⟩
+      have hl : (p ++ [t]).length = p.length + 1 := by simp
+      rw [hl] at hrc
+      simp only [runChainCrash, hrt]
+      exact hrc
+
+end Crash
+
+theorem runExecs_spec (fixed : Bool) (name : String) (execs : List Exec) (w : WSt) (h : J name "1" w.st w.ext) :
+    ∃ w', runExecs fixed true name w execs = .ok w' ∧ J name "1" w'.st w'.ext := by
+  induction execs generalizing w with
+  | nil => exact ⟨w, rfl, h⟩
+  | cons e rest ih =>
+    cases e with
+    | ok ts =>
+      obtain ⟨w1, ran, hrc, hj1, _, _⟩ := runChain_spec name "1" fixed ts w [] [] h List.nil_prefix (Or.inl rfl)
+      simp only [List.length_nil, node_nil, List.nil_append] at hrc
+      obtain ⟨w2, h2, hj2⟩ := ih w1 hj1
+      exact ⟨w2, by simp only [runExecs, runWorkflow, hrc]; exact h2, hj2⟩
+    | killed ts cd =>
+      obtain ⟨w1, hrc, hj1⟩ := runChainCrash_spec name "1" fixed ts w [] cd h List.nil_prefix (Or.inl rfl)
+      simp only [List.length_nil, node_nil] at hrc
+      obtain ⟨w2, h2, hj2⟩ := ih w1 hj1
+      exact ⟨w2, by simp only [runExecs, hrc]; exact h2, hj2⟩
+
 end RedunModel.Handles
